@@ -482,3 +482,280 @@ def replay_fresh_stamp(kind):
         out["runs"].append({"keep_alive": keep_alive, "sent": [p.decode() for p in payloads]})
         out["violates"] |= bool(bad)
     return out
+
+
+# ---- thorough tier: exhaustive fault scripts on the real classes over a virtual-clock event loop (bounded stand-in) ----------------
+class _VLoop(asyncio.SelectorEventLoop):
+    """event loop whose clock jumps to the next timer when nothing is ready: runs are deterministic and take no wall
+    time (uses the CPython attributes _ready / _scheduled of BaseEventLoop)"""
+
+    def __init__(self):
+        super().__init__()
+        self._vt = 0.0
+
+    def time(self):
+        return self._vt
+
+    def _run_once(self):
+        self._steps = getattr(self, "_steps", 0) + 1
+        if self._steps > 200000:
+            raise _Stuck("livelock: more than 200000 loop iterations")
+        if not self._ready:
+            live = [h for h in self._scheduled if not h._cancelled]
+            if not live:
+                # nothing is ready and no timer is pending: with stub transports nothing can ever happen again
+                raise _Stuck("deadlock: a task is waiting, nothing is scheduled")
+            when = min(h._when for h in live)
+            if when > self._vt:
+                self._vt = when
+        super()._run_once()
+
+
+class _Stuck(Exception):
+    pass
+
+
+class _VTransport:
+    """stub transport behaving like asyncio's: close() makes is_closing() true and delivers connection_lost(None) in a
+    later loop iteration, once; a datagram send error is reported synchronously inside sendto()"""
+
+    def __init__(self, loop, proto, world, kind):
+        self.loop, self.proto, self.world, self.kind = loop, proto, world, kind
+        self.closing = False
+        self.lost = False
+        world.open.append(self)
+        world.max_open = max(world.max_open, len(world.open))
+
+    def is_closing(self):
+        return self.closing
+
+    def get_extra_info(self, *a, **k):
+        return None
+
+    def _lost(self, exc):
+        if not self.lost:
+            self.lost = True
+            self.closing = True
+            if self in self.world.open:
+                self.world.open.remove(self)
+            self.proto.connection_lost(exc)
+
+    def close(self):
+        if not self.closing:
+            self.closing = True
+            if self in self.world.open:
+                self.world.open.remove(self)
+            self.loop.call_soon(self._lost, None)
+
+    def abort(self):
+        self.close()
+
+    def _deliver(self, data):
+        if self.closing:
+            return
+        if self.kind == "udp":
+            self.proto.datagram_received(data, ("h", 1))
+        else:
+            self.proto.data_received(data)
+
+    def _send(self, payload):
+        w = self.world
+        if self.closing:
+            return
+        step = w.script.pop(0) if w.script else "silent"
+        T = w.timeout
+        if step == "senderror" and self.kind == "udp":
+            w.send_errors += 1
+            self.proto.error_received(OSError(101, "ENETUNREACH"))
+            return
+        w.sent.append((self.loop.time(), bytes(payload)))
+        if step == "answer":
+            self.loop.call_soon(self._deliver, b"ANSWER")
+        elif step == "late":
+            self.loop.call_later(0.6 * T, self._deliver, b"ANSWER")
+        elif step == "dup":
+            self.loop.call_soon(self._deliver, b"ANSWER")
+            self.loop.call_soon(self._deliver, b"ANSWER")
+        elif step == "garbage":
+            self.loop.call_soon(self._deliver, b"GARBAGE")
+        elif step == "reject":
+            self.loop.call_later(0.2 * T, self._deliver, b"REJECT")
+        elif step == "frag2":
+            self.loop.call_later(0.5 * T, self._deliver, b"FRAG")
+            self.loop.call_later(0.9 * T, self._deliver, b"REST")
+        elif step == "frag1":
+            self.loop.call_later(0.5 * T, self._deliver, b"FRAG")
+        elif step == "error":
+            if self.kind == "udp":
+                self.loop.call_later(0.2 * T, self.proto.error_received, OSError(113, "EHOSTUNREACH"))
+            else:
+                self.loop.call_later(0.2 * T, self._lost, ConnectionResetError(104, "reset"))
+        elif step == "close" and self.kind == "tcp":
+            self.loop.call_later(0.2 * T, self._lost, None)
+
+    sendto = lambda self, payload, addr=None: self._send(payload)      # noqa
+    write = lambda self, payload: self._send(payload)      # noqa
+
+
+class _World:
+    def __init__(self, timeout):
+        self.timeout = timeout
+        self.script = []
+        self.sent = []
+        self.open = []
+        self.max_open = 0
+        self.send_errors = 0
+        self.connects = 0
+
+
+def _sweep_validator(data):
+    if data == b"REJECT":
+        raise RequestRejectedException("ILLEGAL DATA ADDRESS")
+    if data == b"FRAG":
+        raise PartialResponseException(4, 8)
+    return data in (b"ANSWER", b"FRAGREST")
+
+
+def _run_history(kind, retries, keep_alive, scripts, T=1.0):
+    """one protocol object, one request per script; returns the per-request observations"""
+    loop = _VLoop()
+    world = _World(T)
+    unhandled = []
+    loop.set_exception_handler(lambda l, ctx: unhandled.append(repr(ctx.get("exception") or ctx.get("message"))))
+
+    async def endpoint(factory, **kw):
+        # the real create_datagram_endpoint / create_connection suspend at least once (socket set-up, `await waiter`), so
+        # callbacks scheduled before (connection_lost of a transport just closed) run first -- assumption A2
+        await asyncio.sleep(0)
+        await asyncio.sleep(0)
+        world.connects += 1
+        proto = factory()
+        t = _VTransport(loop, proto, world, kind)
+        proto.connection_made(t)
+        return t, proto
+    loop.create_datagram_endpoint = lambda factory, remote_addr=None, **kw: endpoint(factory)
+    loop.create_connection = lambda factory, host=None, port=None, **kw: endpoint(factory)
+    obs = []
+
+    async def go():
+        P = _cls(kind)("127.0.0.1", 8899 if kind == "udp" else 502, 0xf7, T, retries)
+        P.keep_alive = keep_alive
+        for script in scripts:
+            world.script = list(script)
+            n0, t0 = len(world.sent), loop.time()
+            rec = {"script": list(script)}
+            try:
+                r = await asyncio.wait_for(ProtocolCommand(b"request", _sweep_validator).execute(P), 1000 * T)
+                rec["outcome"] = "response"
+                rec["data"] = bytes(r.raw_data)
+            except asyncio.TimeoutError:
+                rec["outcome"] = "HANG"
+            except GeneratorExit:
+                raise
+            except BaseException as e:      # noqa
+                rec["outcome"] = type(e).__name__
+                rec["inverter_error"] = isinstance(e, InverterError)
+                rec["rejected"] = isinstance(e, RequestRejectedException)
+                # ProtocolCommand.execute reports exhausted retries as MaxRetriesException; Inverter._read_from_socket
+                # turns it into RequestFailedException (C09 units)
+                rec["failed"] = isinstance(e, (RequestFailedException, MaxRetriesException))
+                rec["message"] = getattr(e, "message", None)
+            await asyncio.sleep(0)
+            rec["tx"] = len(world.sent) - n0
+            rec["tx_times"] = [round(t - t0, 6) for t, _ in world.sent[n0:]]
+            rec["elapsed"] = round(loop.time() - t0, 6)
+            rec["open_after"] = len(world.open)
+            rec["retry_after"] = P._retry
+            obs.append(rec)
+        await P.close()
+        await asyncio.sleep(0)
+        await asyncio.sleep(0)
+    stuck = None
+    try:
+        loop.run_until_complete(go())
+    except _Stuck as e:
+        stuck = str(e)
+    finally:
+        loop.close()
+    while len(obs) < len(scripts):
+        obs.append({"script": list(scripts[len(obs)]), "outcome": "HANG", "why": stuck, "tx": len(world.sent), "tx_times": [],
+                    "elapsed": None, "open_after": len(world.open), "retry_after": None})
+    return {"requests": obs, "max_open": world.max_open, "open_at_end": len(world.open), "unhandled": unhandled,
+            "stuck": stuck}
+
+
+def fault_script_sweep(kind, retries, keep_alive):
+    """THOROUGH, BOUNDED: every fault script of length retries+1 over the alphabet below, followed by a request to a
+    healthy peer and one to a silent peer, on the real protocol classes and a virtual-clock event loop.  Judged against
+    the statements of C04/C05/C07/C08/C09/C10 directly (not against the ghost model)."""
+    import itertools
+    alphabet = ["silent", "answer", "late", "dup", "garbage", "reject", "frag2", "frag1", "error"] + (
+        ["senderror"] if kind == "udp" else ["close"])
+    T = 1.0
+    budget = retries + 1
+    names = ["C04_request_terminates", "C04_outcome_is_response_rejection_or_failure", "C04_at_most_retries_plus_one_transmissions",
+             "C04_silent_peer_exactly_retries_plus_one_transmissions_one_timeout_apart",
+             "C04_failure_reported_one_timeout_after_the_last_transmission", "C05_next_request_has_the_full_budget",
+             "C06_C04_answer_ends_the_request_without_retransmission", "C07_two_fragments_succeed_without_retransmission",
+             "C07_reassembled_bytes_are_exact", "C08_rejection_at_once_with_its_reason", "C09_only_inverter_errors",
+             "C09_no_exception_escapes_a_callback", "C10_nothing_open_without_keep_alive", "C10_at_most_one_transport_open",
+             "C10_nothing_open_after_close", "C10_next_request_works"]
+    tag = f"{kind}.r{retries}.{'ka' if keep_alive else 'nka'}"
+    obligations = [{"name": n, "detail": f"{tag}: all {len(alphabet)}^{budget} fault scripts", "backend": "bounded-exhaustive"}
+                   for n in names]
+    failures = []
+
+    def fail(name, script, rec, why):
+        if sum(1 for f in failures if f["obligation"] == name) < 5:
+            failures.append({"obligation": name, "kind": kind, "retries": retries, "keep_alive": keep_alive,
+                             "script": list(script), "observed": {k: v for k, v in rec.items() if k != "data"}, "why": why})
+    cases = 0
+    nonterminal = ("silent", "frag1") + (("garbage",) if kind == "udp" else ())
+    for script in itertools.product(alphabet, repeat=budget):
+        cases += 1
+        # the faulty request, then (same object) a silent peer, then a healthy one
+        h = _run_history(kind, retries, keep_alive, [script, ["silent"] * budget, ["answer"]], T)
+        r1, r3, r2 = h["requests"]
+        # index of the first step that ends the request by the statements (None: undetermined by them)
+        k = next((i for i, s in enumerate(script) if s not in nonterminal), None)
+        for rec in (r1, r2, r3):
+            if rec["outcome"] == "HANG":
+                fail("C04_request_terminates", script, rec, rec.get("why") or "request still pending after 1000 timeouts")
+            elif rec["outcome"] != "response" and not (rec.get("rejected") or rec.get("failed")):
+                fail("C04_outcome_is_response_rejection_or_failure", script, rec, rec["outcome"])
+            if rec["outcome"] != "response" and rec["outcome"] != "HANG" and not rec.get("inverter_error"):
+                fail("C09_only_inverter_errors", script, rec, rec["outcome"])
+            if rec["tx"] > budget:
+                fail("C04_at_most_retries_plus_one_transmissions", script, rec, f"{rec['tx']} transmissions")
+            if not keep_alive and rec["open_after"]:
+                fail("C10_nothing_open_without_keep_alive", script, rec, f"{rec['open_after']} transport(s) open")
+        if h["unhandled"]:
+            fail("C09_no_exception_escapes_a_callback", script, r1, "; ".join(h["unhandled"])[:200])
+        if h["max_open"] > 1:
+            fail("C10_at_most_one_transport_open", script, r1, f"{h['max_open']} open at the same time")
+        if h["open_at_end"]:
+            fail("C10_nothing_open_after_close", script, r1, f"{h['open_at_end']} open after close()")
+        if r2["outcome"] != "response" or r2["tx"] != 1:
+            fail("C10_next_request_works", script, r2, "healthy peer after the faulty request")
+        if r3["tx"] != budget or r3["outcome"] == "response":
+            fail("C05_next_request_has_the_full_budget", script, r3, f"{r3['tx']} transmissions to a silent peer")
+        exp_times = [round(i * T, 6) for i in range(budget)]
+        if r3["tx_times"] != exp_times:
+            fail("C04_silent_peer_exactly_retries_plus_one_transmissions_one_timeout_apart", script, r3,
+                 f"sent at {r3['tx_times']}, expected {exp_times}")
+        if r3["outcome"] not in ("response", "HANG") and abs(r3["elapsed"] - budget * T) > 1e-6:
+            fail("C04_failure_reported_one_timeout_after_the_last_transmission", script, r3, f"elapsed {r3['elapsed']}")
+        if k is not None and all(s == "silent" for s in script[:k]):
+            step = script[k]
+            if step in ("answer", "late", "dup"):
+                if r1["outcome"] != "response" or r1["tx"] != k + 1:
+                    fail("C06_C04_answer_ends_the_request_without_retransmission", script, r1, step)
+            elif step == "frag2":
+                if r1["outcome"] != "response" or r1["tx"] != k + 1:
+                    fail("C07_two_fragments_succeed_without_retransmission", script, r1, step)
+                elif r1.get("data") != b"FRAGREST":
+                    fail("C07_reassembled_bytes_are_exact", script, r1, repr(r1.get("data")))
+            elif step == "reject":
+                if not r1.get("rejected") or r1["tx"] != k + 1 or r1.get("message") != "ILLEGAL DATA ADDRESS":
+                    fail("C08_rejection_at_once_with_its_reason", script, r1, step)
+    return {"cases": cases, "exhaustive": True, "failures": failures, "obligations": obligations}
